@@ -134,6 +134,12 @@ def gen_history(rng, hid, confirm=False):
                 # (with rows to write the first three file calls of a multi-file append belong to its first part file; an append of
                 # no rows goes straight to the summary files, whose rewrite is outside the property)
                 b["failed_first"] = {"mode": "io", "k": rng.choice([1, 2, 3])}
+    if scheme != "simple" and not confirm and h.get("handle_from") is None and rng.random() < 0.2:
+        # the append target has NO summary file (datasets of other tools, e.g. dask's default; summary files lost while copying): before
+        # one of the appends _metadata (and / or _common_metadata) is deleted; such a directory is a legal dataset (opened by listing)
+        h["drop_summary"] = {"step": rng.randrange(1, nb), "what": rng.choice(["_metadata", "both", "both", "_common_metadata"])}
+        for b in h["batches"]:
+            b["row_group_offsets"] = None if b["row_group_offsets"] is None or isinstance(b["row_group_offsets"], int) else b["row_group_offsets"][:2]
     if scheme == "simple" and not confirm and rng.random() < FAULT_SHARE:
         # I/O fault injection at EVERY call (open, read of the old footer, every write incl. the new footer, close) of one append
         h["fault_step"] = rng.randrange(1, nb)
@@ -554,6 +560,23 @@ def run_history(arg):
                     ranges = old_chunk_ranges(pf_b)
                     refs_b = []
                 else:
+                    ds_ = h.get("drop_summary")
+                    if ds_ and ds_["step"] == i:
+                        for nm in ([dsfs.MD, dsfs.CMD] if ds_["what"] == "both" else [ds_["what"]]):
+                            if os.path.exists(os.path.join(target, nm)):
+                                os.remove(os.path.join(target, nm))
+                        st["dropped_summary"] = ds_["what"]
+                        if ds_["what"] != dsfs.CMD:
+                            # without _metadata the row groups come in file-listing order: what the dataset holds NOW is the baseline
+                            s0_, v0_ = dsfs.guarded(lambda: frame_cells(ParquetFile(target).to_pandas(), bool(h["index"])), READ_TIMEOUT)
+                            if s0_ != "ok":
+                                st["problems"].append(("unreadable", "the directory without %s cannot be opened / read: %s" % (ds_["what"], v0_)))
+                                out["steps"].append(st)
+                                break
+                            if sorted(map(repr, zip(*[v for _, v in v0_]))) != sorted(map(repr, zip(*[v for _, v in expected]))):
+                                st["problems"].append(("values-differ", "the directory without %s does not hold the rows written so far" % ds_["what"]))
+                            expected = v0_
+                            expected_before = expected
                     snap_b = dsfs.snapshot(target)
                     pf_b = ParquetFile(target)
                     refs_b = dsfs.refs_of(pf_b)
@@ -577,6 +600,14 @@ def run_history(arg):
                                     st["problems"].append(tuple(st["failed_first"]["problem"]))
                             handle.write_row_groups(df, row_group_offsets=akw.get("row_group_offsets"), compression=akw["compression"],
                                                     open_with=rec.open_with, mkdirs=rec.mkdirs)
+                        elif st.get("dropped_summary"):
+                            # (opening a directory by listing needs a file system object: open_with = the bound open of one)
+                            fso = dsfs.rec_fs(rec).open
+                            if h["batches"][i].get("via") == "write_row_groups":
+                                ParquetFile(target, open_with=fso).write_row_groups(
+                                    df, row_group_offsets=akw.get("row_group_offsets"), compression=akw["compression"], open_with=fso, mkdirs=rec.mkdirs)
+                            else:
+                                write(target, df, append=True, open_with=fso, mkdirs=rec.mkdirs, **akw)
                         elif h["batches"][i].get("via") == "write_row_groups":
                             ParquetFile(target, open_with=rec.open_with).write_row_groups(
                                 df, row_group_offsets=akw.get("row_group_offsets"), compression=akw["compression"],
@@ -808,6 +839,8 @@ def run(ctx):
             if i > 0:
                 ctx.count("entry_point", h["batches"][i].get("via", "write") + ("+permuted columns" if h["batches"][i].get("permute") else ""))
             short = {"history": h["id"], "scheme": h["scheme"], "step": i}
+            if st.get("dropped_summary"):
+                ctx.count("append_target_without_summary_file", "%s deleted before the append (%s)" % (st["dropped_summary"], h["scheme"]))
             if "raised" in st:
                 ctx.count("refused", st["raised"][:60])
             if st.get("failed_first"):
